@@ -1,2 +1,309 @@
-(* C09 placeholder while the proofs are being written *)
-Require Import Bits.Model.Bip32.
+(* C09 - BIP32: public/private derivation commute, paths compose, extended keys serialise and invalid payloads are
+   rejected.
+
+   Model: Model/Bip32.v (bips/bip32.py, wallet/hd.py get_xpub / derive_from_path, the utils helpers they call).
+   Spec:  Spec/Bip32.v, transcribed from the BIP text (CKDpriv, CKDpub, N, master key, fingerprint, the 78-byte
+          serialisation format, the validity rules of test vector 5).
+   Every theorem is generic in the curve (p a b n G).  [curve_facts] (chord-and-tangent addition is a commutative
+   group, G has prime order n) and [sqrt_facts] (p = 3 mod 4, candidate square roots) are EXPLICIT PREMISES, proved
+   outright for the small curves (Proofs/SmallCurves*.v, Proofs/Sec1Small.v) -- see the corollaries at the end --
+   and classical facts for secp256k1.  HMAC-SHA512, SHA256, RIPEMD160 are arbitrary functions of the right
+   output length.  This file contains only statements closed by [exact] and their assumptions. *)
+From Coq Require Import ZArith List Bool Lia.
+Require Import Bits.Lib.Result Bits.Lib.Bytes Bits.Model.Ecmath Bits.Proofs.Ecmath Bits.Proofs.Ecdsa
+  Bits.Model.Base58 Bits.Model.Sec1 Bits.Proofs.Sec1 Bits.Proofs.Sec1Small Bits.Proofs.SmallCurves
+  Bits.Model.Bip32 Bits.Proofs.Bip32 Bits.Proofs.Bip32Ser Bits.Proofs.Bip32Text Bits.Proofs.Bip32Path.
+Require Bits.Spec.Bip32 Bits.Spec.Secp256k1.
+Import ListNotations.
+Import Coq.Init.Byte.
+Local Open Scope Z_scope.
+
+Module S := Bits.Spec.Bip32.
+
+(* ------------------------------------------------------------------------------------------------------------
+   ckd_commute: for every valid parent key k (1 <= k < n), chain code c and NON-hardened index i:
+   when CKDpriv succeeds, CKDpub applied to the neutered parent N(k, c) returns exactly N(CKDpriv(k, c, i)), a
+   finite point;  when CKDpriv fails (I_L >= n: ValueError from add_mod_p; k_i = 0: AssertionError), CKDpub fails
+   as well (AssertionError) or -- in the k_i = 0 case -- returns the point at infinity as None, because the code
+   has no check for K_i = infinity (the BIP declares that child invalid; derive_from_path then fails in
+   serialized_extended_key).  Algebra: (I_L + k mod n) G = I_L G + k G.
+   ------------------------------------------------------------------------------------------------------------ *)
+Theorem C09_ckd_commute :
+  forall p a b n G, curve_facts p a b n G -> p <= 2 ^ 256 ->
+  forall (hmac : bytes -> bytes -> bytes) k c i, 1 <= k < n -> 0 <= i < 2 ^ 31 ->
+    let pub_side := bind (N_ p a G k c) (fun Kc => CKDpub p a n G hmac (fst Kc) (snd Kc) i) in
+    match CKDpriv p a n G hmac k c i with
+    | Ok (k', c') =>
+        1 <= k' < n /\ pub_side = N_ p a G k' c' /\ exists x y, N_ p a G k' c' = Ok (Some (x, y), c')
+    | Err e =>
+        (e = ValueE /\ pub_side = Err AssertionE) \/
+        (e = AssertionE /\ exists c', pub_side = Ok (None, c'))
+    end.
+Proof. exact ckd_commute. Qed.
+Print Assumptions C09_ckd_commute.
+
+(* conversely: whenever the public side yields a finite point, the private side succeeds with the same child *)
+Theorem C09_ckd_commute_conv :
+  forall p a b n G, curve_facts p a b n G -> p <= 2 ^ 256 ->
+  forall (hmac : bytes -> bytes -> bytes) k c i P c', 1 <= k < n -> 0 <= i < 2 ^ 31 -> P <> None ->
+    bind (N_ p a G k c) (fun Kc => CKDpub p a n G hmac (fst Kc) (snd Kc) i) = Ok (P, c') ->
+    exists k', CKDpriv p a n G hmac k c i = Ok (k', c') /\ N_ p a G k' c' = Ok (P, c').
+Proof. exact ckd_commute_conv. Qed.
+Print Assumptions C09_ckd_commute_conv.
+
+(* ckd_pub_hardened: no hardened child from a public key -- for EVERY key, chain code, curve: ValueError *)
+Theorem C09_ckd_pub_hardened :
+  forall p a n G (hmac : bytes -> bytes -> bytes) K c i, 2 ^ 31 <= i -> CKDpub p a n G hmac K c i = Err ValueE.
+Proof. exact ckd_pub_hardened. Qed.
+Print Assumptions C09_ckd_pub_hardened.
+
+(* CKDpriv / CKDpub are the BIP's functions on every index 0 <= i < 2^32 (hardened and not) *)
+Theorem C09_ckdpriv_is_spec :
+  forall p a b n G, curve_facts p a b n G -> p <= 2 ^ 256 -> n <= 2 ^ 256 ->
+  forall (hmac : bytes -> bytes -> bytes) k c i, 1 <= k < n -> 0 <= i < 2 ^ 32 ->
+    match S.ckd_priv n (fun k => smul p a k G) hmac k c i with
+    | Some (ki, ci) => CKDpriv p a n G hmac k c i = Ok (ki, ci) /\ 1 <= ki < n
+    | None => exists e, CKDpriv p a n G hmac k c i = Err e /\ (e = ValueE \/ e = AssertionE)
+    end.
+Proof. exact CKDpriv_spec. Qed.
+Print Assumptions C09_ckdpriv_is_spec.
+
+Theorem C09_ckdpub_is_spec :
+  forall p a b n G, curve_facts p a b n G -> p <= 2 ^ 256 ->
+  forall (hmac : bytes -> bytes -> bytes) K c i, oncurve p a b K -> K <> None -> 0 <= i < 2 ^ 32 ->
+    match S.ckd_pub n (fun k => smul p a k G) (padd p a) hmac K c i with
+    | Some (Ki, ci) => CKDpub p a n G hmac K c i = Ok (Ki, ci) /\ oncurve p a b Ki /\ Ki <> None
+    | None => (exists e, CKDpub p a n G hmac K c i = Err e /\ (e = ValueE \/ e = AssertionE))
+              \/ (exists ci, CKDpub p a n G hmac K c i = Ok (None, ci))
+    end.
+Proof. exact CKDpub_spec. Qed.
+Print Assumptions C09_ckdpub_is_spec.
+
+(* master key generation is the BIP's (the code's literal n is secp256k1's: GenProps/Bip32Gen.v) *)
+Theorem C09_master_is_spec :
+  forall (hmac : bytes -> bytes -> bytes) seed,
+    to_master_key hmac seed =
+    match S.master Bits.Spec.Secp256k1.n hmac seed with Some kc => Ok kc | None => Err AssertionE end.
+Proof. exact master_spec. Qed.
+Print Assumptions C09_master_is_spec.
+
+(* ------------------------------------------------------------------------------------------------------------
+   xkey_accept_iff: deserialized_extended_key accepts a string iff it is checksum-valid Base58Check whose payload
+   is a valid serialised extended key in the sense of the BIP -- [S.decodes d X] = "d = serialize X /\ wf X":
+   78 bytes in the layout 4|1|4|4|32|33, known version, key type matching the version (0x00 || ser256(k) with
+   1 <= k < n for xprv/tprv, compressed on-curve point for xpub/tpub), zero fingerprint and child number at depth 0
+   -- and then returns exactly that key's fields.
+   ------------------------------------------------------------------------------------------------------------ *)
+Theorem C09_xkey_accept_iff :
+  forall p a b n, sqrt_facts p -> inF p a = true -> inF p b = true -> p <= 2 ^ 256 -> n <= 2 ^ 256 ->
+  forall sha256 : bytes -> bytes, (forall m, length (sha256 m) = 32%nat) ->
+  forall s f,
+    deserialized_extended_key p a b n sha256 s = Ok f <->
+    exists d X, base58check_decode sha256 s = Ok d /\ S.decodes p a b n d X /\ f = fields_of X.
+Proof. exact xkey_accept_iff. Qed.
+Print Assumptions C09_xkey_accept_iff.
+
+(* rejections raise KeyError (alphabet), ValueError or AssertionError (on curves without 2-torsion) *)
+Theorem C09_xkey_reject_kinds :
+  forall p a b n, sqrt_facts p -> inF p a = true -> inF p b = true ->
+  forall (sha256 : bytes -> bytes) s e,
+    (forall x, 0 <= x < p -> fpow p (rhs p a b x) ((p + 1) / 4) <> 0) ->
+    deserialized_extended_key p a b n sha256 s = Err e -> e = KeyE \/ e = ValueE \/ e = AssertionE.
+Proof. exact xkey_reject_kinds. Qed.
+Print Assumptions C09_xkey_reject_kinds.
+
+(* xkey_roundtrip: for every VALID field tuple (depth / child number given as bytes or as ints) the serialisation is
+   Base58Check of the BIP's 78-byte format and deserialising it returns the same fields *)
+Theorem C09_xkey_roundtrip :
+  forall p a b n, sqrt_facts p -> inF p a = true -> inF p b = true -> p <= 2 ^ 256 -> n <= 2 ^ 256 ->
+  forall sha256 : bytes -> bytes, (forall m, length (sha256 m) = 32%nat) ->
+  forall X, S.wf p a b n X -> forall dep chn,
+    dep = AsBytes [z2b (S.xk_depth X)] \/ dep = AsInt (S.xk_depth X) ->
+    chn = AsBytes (S.ser32 (S.xk_child X)) \/ chn = AsInt (S.xk_child X) ->
+    bind (serialized_extended_key sha256 (key_of (S.xk_key X)) (S.xk_cc X) dep (S.xk_fp X) chn (S.xk_testnet X))
+         (deserialized_extended_key p a b n sha256) = Ok (fields_of X).
+Proof. exact xkey_roundtrip. Qed.
+Print Assumptions C09_xkey_roundtrip.
+
+Theorem C09_serialization_format :
+  forall p a b n, sqrt_facts p -> inF p a = true -> inF p b = true -> p <= 2 ^ 256 -> n <= 2 ^ 256 ->
+  forall sha256 : bytes -> bytes, (forall m, length (sha256 m) = 32%nat) ->
+  forall X, S.wf p a b n X -> forall dep chn,
+    dep = AsBytes [z2b (S.xk_depth X)] \/ dep = AsInt (S.xk_depth X) ->
+    chn = AsBytes (S.ser32 (S.xk_child X)) \/ chn = AsInt (S.xk_child X) ->
+    serialized_extended_key sha256 (key_of (S.xk_key X)) (S.xk_cc X) dep (S.xk_fp X) chn (S.xk_testnet X)
+      = Ok (base58check sha256 (S.serialize X)).
+Proof. exact ser_enc. Qed.
+Print Assumptions C09_serialization_format.
+
+(* ------------------------------------------------------------------------------------------------------------
+   derive_matches_spec: from ANY valid extended key X (private or public, mainnet or testnet, any depth) and the
+   canonical text "m/i1/i2'/..." ("M/..." for public keys) of ANY index list, derive_from_path returns the
+   serialisation of the BIP's derived extended key -- version, depth, parent fingerprint, child number, chain
+   code and key all equal to Spec -- and fails exactly when the BIP yields no key (invalid child, hardened from a
+   public key) or the depth byte overflows.
+   ------------------------------------------------------------------------------------------------------------ *)
+Theorem C09_derive_matches_spec :
+  forall p a b n G, curve_facts p a b n G -> sqrt_facts p -> p <= 2 ^ 256 -> n <= 2 ^ 256 ->
+  forall hmac : bytes -> bytes -> bytes, (forall k m, length (hmac k m) = 64%nat) ->
+  forall sha256 ripemd160 : bytes -> bytes,
+    (forall m, length (sha256 m) = 32%nat) -> (forall m, length (ripemd160 m) = 20%nat) ->
+  forall X l, S.wf p a b n X -> Forall (fun i => 0 <= i < 2 ^ 32) l ->
+    let path := join (pfx (S.is_pub (S.xk_key X))) (map render l) in
+    let xkey := base58check sha256 (S.serialize X) in
+    match S.derive n (fun k => smul p a k G) (padd p a) hmac sha256 ripemd160 X l with
+    | Some X' =>
+        if S.xk_depth X' <=? 255
+        then derive_from_path p a b n G hmac sha256 ripemd160 path xkey = Ok (base58check sha256 (S.serialize X'))
+             /\ S.wf p a b n X'
+        else exists e, derive_from_path p a b n G hmac sha256 ripemd160 path xkey = Err e
+    | None => exists e, derive_from_path p a b n G hmac sha256 ripemd160 path xkey = Err e
+    end.
+Proof. exact derive_matches_spec. Qed.
+Print Assumptions C09_derive_matches_spec.
+
+(* the text -> index list reading used above: the canonical text of an index parses back to it *)
+Theorem C09_path_text :
+  forall i, 0 <= i < 2 ^ 32 -> parse_component (render i) = Ok i.
+Proof. exact parse_component_render. Qed.
+Print Assumptions C09_path_text.
+
+(* ------------------------------------------------------------------------------------------------------------
+   path_compose: derive (p ++ q) x = derive p x >>= derive q, for arbitrary component texts (also malformed ones in
+   p), including every failure with its exception class; premise: the components of q are well-formed numbers.
+   ------------------------------------------------------------------------------------------------------------ *)
+Theorem C09_path_compose :
+  forall p a b n G, curve_facts p a b n G -> sqrt_facts p -> p <= 2 ^ 256 -> n <= 2 ^ 256 ->
+  forall hmac : bytes -> bytes -> bytes, (forall k m, length (hmac k m) = 64%nat) ->
+  forall sha256 ripemd160 : bytes -> bytes,
+    (forall m, length (sha256 m) = 32%nat) -> (forall m, length (ripemd160 m) = 20%nat) ->
+  forall (pub : bool) (l1 l2 : list bytes) (x : bytes),
+    Forall no_slash (l1 ++ l2) -> (exists i2, ptree l2 = Ok i2) ->
+    derive_from_path p a b n G hmac sha256 ripemd160 (join (pfx pub) (l1 ++ l2)) x =
+    bind (derive_from_path p a b n G hmac sha256 ripemd160 (join (pfx pub) l1) x)
+         (fun y => derive_from_path p a b n G hmac sha256 ripemd160 (join (pfx pub) l2) y).
+Proof. exact path_compose. Qed.
+Print Assumptions C09_path_compose.
+
+(* m/... from an xpub and M/... from an xprv are refused *)
+Theorem C09_path_kind_mismatch :
+  forall p a b n G, curve_facts p a b n G -> sqrt_facts p -> p <= 2 ^ 256 -> n <= 2 ^ 256 ->
+  forall (hmac : bytes -> bytes -> bytes) (sha256 ripemd160 : bytes -> bytes), (forall m, length (sha256 m) = 32%nat) ->
+  forall X l, S.wf p a b n X -> Forall no_slash l ->
+    derive_from_path p a b n G hmac sha256 ripemd160 (join (pfx (negb (S.is_pub (S.xk_key X)))) l)
+      (base58check sha256 (S.serialize X)) = Err ValueE.
+Proof. exact path_kind_mismatch. Qed.
+Print Assumptions C09_path_kind_mismatch.
+
+(* get_xpub returns the neutered key at the same position in the tree *)
+Theorem C09_get_xpub :
+  forall p a b n G, curve_facts p a b n G -> sqrt_facts p -> p <= 2 ^ 256 -> n <= 2 ^ 256 ->
+  forall sha256 : bytes -> bytes, (forall m, length (sha256 m) = 32%nat) ->
+  forall X, S.wf p a b n X ->
+    get_xpub p a b n G sha256 (base58check sha256 (S.serialize X))
+      = Ok (base58check sha256 (S.serialize (S.neuter_xkey (fun k => smul p a k G) X)))
+    /\ S.wf p a b n (S.neuter_xkey (fun k => smul p a k G) X).
+Proof. exact get_xpub_spec. Qed.
+Print Assumptions C09_get_xpub.
+
+(* ============================================================================================================
+   Non-vacuity: the premises hold on the small curve (p, n) = (43, 31) with G43, so the theorems above are
+   unconditional there; toy hash functions of the right lengths make every branch reachable.
+   ============================================================================================================ *)
+Definition toy_hmac (il : Z) : bytes -> bytes -> bytes := fun _ _ => to_be 32 il ++ repeat x07 32.
+Definition toy_sha256 : bytes -> bytes := fun m => repeat (z2b (Z.of_nat (length m))) 32.
+Definition toy_ripemd160 : bytes -> bytes := fun m => firstn 20 m.
+Lemma toy_hmac_len il k m : length (toy_hmac il k m) = 64%nat.
+Proof. unfold toy_hmac. rewrite app_length, to_be_length, repeat_length. reflexivity. Qed.
+Lemma toy_sha256_len m : length (toy_sha256 m) = 32%nat.
+Proof. apply repeat_length. Qed.
+Lemma toy_ripemd160_len m : length (toy_ripemd160 (toy_sha256 m)) = 20%nat.
+Proof. unfold toy_ripemd160. rewrite firstn_length, toy_sha256_len. reflexivity. Qed.
+
+Example C09_ex_premises_43 :
+  curve_facts 43 0 7 31 G43 /\ sqrt_facts 43 /\ inF 43 0 = true /\ inF 43 7 = true /\ 43 <= 2 ^ 256 /\ 31 <= 2 ^ 256.
+Proof.
+  split; [exact facts_43|]. split; [exact sqrt_facts_43|]. split; [reflexivity|]. split; [reflexivity|].
+  split; vm_compute; discriminate.
+Qed.
+Lemma w43 : 43 <= 2 ^ 256. Proof. vm_compute. discriminate. Qed.
+
+(* the commutation theorem, unconditional on the small curve *)
+Example C09_ex_commute_43 :
+  forall (hmac : bytes -> bytes -> bytes) k c i, 1 <= k < 31 -> 0 <= i < 2 ^ 31 ->
+    forall k' c', CKDpriv 43 0 31 G43 hmac k c i = Ok (k', c') ->
+    bind (N_ 43 0 G43 k c) (fun Kc => CKDpub 43 0 31 G43 hmac (fst Kc) (snd Kc) i) = N_ 43 0 G43 k' c'.
+Proof.
+  intros hmac k c i Hk Hi k' c' E.
+  pose proof (C09_ckd_commute 43 0 7 31 G43 facts_43 w43 hmac k c i Hk Hi) as C. cbv zeta in C.
+  rewrite E in C. now destruct C as (_ & C & _).
+Qed.
+
+(* all three outcomes of a non-hardened derivation occur: valid child, I_L >= n, k_i = 0 (K_i = infinity) *)
+Example C09_ex_ckd_ok :
+  CKDpriv 43 0 31 G43 (toy_hmac 5) 3 [] 1 = Ok (8, repeat x07 32) /\
+  bind (N_ 43 0 G43 3 []) (fun Kc => CKDpub 43 0 31 G43 (toy_hmac 5) (fst Kc) (snd Kc) 1) = N_ 43 0 G43 8 (repeat x07 32).
+Proof. vm_compute. split; reflexivity. Qed.
+Example C09_ex_ckd_IL_ge_n :
+  CKDpriv 43 0 31 G43 (toy_hmac 31) 3 [] 1 = Err ValueE /\
+  bind (N_ 43 0 G43 3 []) (fun Kc => CKDpub 43 0 31 G43 (toy_hmac 31) (fst Kc) (snd Kc) 1) = Err AssertionE.
+Proof. vm_compute. split; reflexivity. Qed.
+Example C09_ex_ckd_zero_key :
+  CKDpriv 43 0 31 G43 (toy_hmac 28) 3 [] 1 = Err AssertionE /\
+  bind (N_ 43 0 G43 3 []) (fun Kc => CKDpub 43 0 31 G43 (toy_hmac 28) (fst Kc) (snd Kc) 1) = Ok (None, repeat x07 32).
+Proof. vm_compute. split; reflexivity. Qed.
+Example C09_ex_hardened :
+  CKDpub 43 0 31 G43 (toy_hmac 5) G43 [] (2 ^ 31) = Err ValueE /\
+  exists kc, CKDpriv 43 0 31 G43 (toy_hmac 5) 3 [] (2 ^ 31) = Ok kc.
+Proof. split; [reflexivity|]. eexists. vm_compute. reflexivity. Qed.
+
+(* a concrete valid extended private key on the small curve, its serialisation round trip, a derivation along
+   m/1/2' and the same derivation step by step, and the M/1 derivation from its neutered key *)
+Definition ex_X : S.xkey :=
+  {| S.xk_testnet := false; S.xk_depth := 0; S.xk_fp := S.zero4; S.xk_child := 0; S.xk_cc := repeat x01 32;
+     S.xk_key := S.Prv 3 |}.
+Definition ex_sha (m : bytes) := toy_sha256 m.
+Definition ex_xprv : bytes := base58check ex_sha (S.serialize ex_X).
+Definition ex_derive := derive_from_path 43 0 7 31 G43 (toy_hmac 5) ex_sha toy_ripemd160.
+
+Example C09_ex_wf : S.wf 43 0 7 31 ex_X.
+Proof. unfold S.wf, ex_X; cbn. repeat split; try lia; reflexivity. Qed.
+
+Example C09_ex_roundtrip :
+  deserialized_extended_key 43 0 7 31 ex_sha ex_xprv = Ok (fields_of ex_X) /\ length (S.serialize ex_X) = 78%nat.
+Proof. vm_compute. split; reflexivity. Qed.
+
+Example C09_ex_derive :
+  (* "m/1/2'" *)
+  exists y, ex_derive [x6d; x2f; x31; x2f; x32; x27] ex_xprv = Ok y /\
+    (* = "m/1" then "m/2'" *)
+    bind (ex_derive [x6d; x2f; x31] ex_xprv) (ex_derive [x6d; x2f; x32; x27]) = Ok y /\
+    (* the result is a depth-2 key with child number 2^31 + 2 *)
+    exists v fp cc k, deserialized_extended_key 43 0 7 31 ex_sha y = Ok (v, [x02], fp, S.ser32 (2 ^ 31 + 2), cc, KPriv k).
+Proof. eexists. split; [vm_compute; reflexivity|]. split; [vm_compute; reflexivity|]. do 4 eexists. vm_compute. reflexivity. Qed.
+
+Example C09_ex_derive_pub :
+  exists xpub y, get_xpub 43 0 7 31 G43 ex_sha ex_xprv = Ok xpub /\
+    (* "M/1" from the xpub equals the neutered "m/1" from the xprv *)
+    ex_derive [x4d; x2f; x31] xpub = Ok y /\
+    bind (ex_derive [x6d; x2f; x31] ex_xprv) (get_xpub 43 0 7 31 G43 ex_sha) = Ok y /\
+    (* hardened from public: refused *)
+    ex_derive [x4d; x2f; x31; x27] xpub = Err ValueE.
+Proof. do 2 eexists. repeat split; vm_compute; reflexivity. Qed.
+
+(* rejected payloads: a valid key with one field mutated each *)
+Definition ex_mut (f : bytes -> bytes) : result fields :=
+  deserialized_extended_key 43 0 7 31 ex_sha (base58check ex_sha (f (S.serialize ex_X))).
+Example C09_ex_rejects :
+  ex_mut (fun d => x05 :: skipn 1 d) = Err ValueE                                        (* unknown version *)
+  /\ ex_mut (fun d => S.vbytes true false ++ skipn 4 d) = Err ValueE                       (* xpub version, private key data *)
+  /\ ex_mut (fun d => firstn 5 d ++ [x00; x00; x00; x01] ++ skipn 9 d) = Err ValueE        (* depth 0, fingerprint != 0 *)
+  /\ ex_mut (fun d => firstn 9 d ++ [x00; x00; x00; x01] ++ skipn 13 d) = Err ValueE       (* depth 0, index != 0 *)
+  /\ ex_mut (fun d => firstn 45 d ++ [x01] ++ skipn 46 d) = Err ValueE                     (* bad key prefix *)
+  /\ ex_mut (fun d => firstn 46 d ++ to_be 32 0) = Err AssertionE                          (* k = 0 *)
+  /\ ex_mut (fun d => firstn 46 d ++ to_be 32 31) = Err AssertionE                         (* k = n *)
+  /\ ex_mut (fun d => firstn 77 d) = Err AssertionE                                        (* 77 bytes *)
+  /\ ex_mut (fun d => d ++ [x00]) = Err AssertionE                                         (* 79 bytes *)
+  /\ ex_mut (fun d => S.vbytes true false ++ firstn 41 (skipn 4 d) ++ x02 :: to_be 32 1) = Err AssertionE  (* x = 1 off curve *)
+  /\ deserialized_extended_key 43 0 7 31 ex_sha (ex_xprv ++ [x31]) = Err ValueE.            (* checksum *)
+Proof. vm_compute. repeat split; reflexivity. Qed.
